@@ -79,7 +79,28 @@ def gen_cases(g, rng, n_rect, n_pt):
     rs |= {(g['res'][0] * 8, 1), (1, 1), (g['res'][-1], 3)}
     for num, den in sorted(rs):
         ress.append((num, den))
-    return pts, tiles, rects, ress
+    # request rectangles with an output size (get_affected_bbox_and_level): every resolution of the ladder, and the
+    # max_shrink cut-off of EVERY level (it applies to the first level only), on rectangles inside, across and beside the grid
+    bbls = []
+    rs2 = set(rs)
+    for r in g['res']:
+        for num, den in ((r * L.MS, 1), (r * L.MS * 10 + 1, 10), (r * L.MS * 10 - 1, 10), (r * (L.MS + 1), 1), (r * L.MS * 2, 1),
+                         (r * L.MS * L.SD * 10 - 1, L.SN * 10), (r * L.MS * L.SD * 10 + 1, L.SN * 10)):
+            rs2.add((num, den))
+    bx0, by0, bx1, by1 = g['bbox']
+    for num, den in sorted(rs2):
+        for k in range(3):
+            m = rng.randint(1, 3)
+            w, h = den * m, den * rng.randint(1, 3)
+            kind = rng.random()
+            if kind < 0.75:
+                x0 = rng.randint(bx0 - num * m // 2, bx1 - 1)
+                y0 = rng.randint(by0 - num * (h // den) // 2, by1 - 1)
+            else:
+                x0 = rng.choice((bx1, bx1 + 7, bx0 - num * m, bx0 - num * m - 3, rng.randint(bx0, bx1)))
+                y0 = rng.choice((by1, by0 - num * (h // den), rng.randint(by0, by1)))
+            bbls.append(([x0, y0, x0 + num * m, y0 + num * (h // den)], [w, h], num, den))
+    return pts, tiles, rects, ress, bbls
 
 
 def ambiguous_rect(g, b, l):
@@ -96,7 +117,7 @@ def ambiguous_rect(g, b, l):
 def observe(name_or_grid, g, cases, regime_grids):
     """run the real TileGrid on every case in both regimes; returns the JSON document for Trace_Lattice"""
     from mapproxy.grid import GridError
-    pts, tiles, rects, ress = cases
+    pts, tiles, rects, ress, bbls = cases
     ga, gb = regime_grids
     A, Bm = L.EXACT, L.AWK
     problems = []
@@ -110,7 +131,7 @@ def observe(name_or_grid, g, cases, regime_grids):
 
     doc = {'grid': g, 'sizes': [list(ga.grid_sizes[l]) for l in range(len(g['res']))],
            'supports_ll': bool(ga.supports_access_with_origin('ll')), 'supports_ul': bool(ga.supports_access_with_origin('ul')),
-           'points': [], 'tiles': [], 'rects': [], 'ress': []}
+           'points': [], 'tiles': [], 'rects': [], 'ress': [], 'bbls': []}
     skip_b = False
     for l in range(len(g['res'])):
         if tuple(gb.grid_sizes[l]) != tuple(ga.grid_sizes[l]):
@@ -118,7 +139,7 @@ def observe(name_or_grid, g, cases, regime_grids):
             # n-1; that changes the tile count only if n = 1 (mod tile size).  The uncovered strip is then exactly
             # one pixel - the boundary of the tolerance C03 grants - so either size is accepted there.
             w, h, r = g['bbox'][2] - g['bbox'][0], g['bbox'][3] - g['bbox'][1], g['res'][l]
-            boundary = (w % r == 0 and (w // r) % g['tw'] == 1) or (h % r == 0 and (h // r) % g['th'] == 1)
+            boundary = (w % r == 0 and (w // r) % g['tw'] == 1 % g['tw']) or (h % r == 0 and (h // r) % g['th'] == 1 % g['th'])
             if boundary:
                 skip_b = True
             else:
@@ -150,6 +171,19 @@ def observe(name_or_grid, g, cases, regime_grids):
         tie = any(r * rd == rn or r * rd * L.SD == rn * L.SN for r in list(g['res']) + list(g.get('thr', [])))
         doc['ress'].append({'rn': rn, 'rd': rd, 'a': ga.closest_level(rn / float(rd)),
                             'b': -1 if tie else gb.closest_level(Bm.fwd_len(rn / float(rd)))})
+
+    def bbl(grid, reg, b, size):
+        from mapproxy.grid import NoTiles
+        try:
+            return grid.get_affected_bbox_and_level(tuple(reg.fwd(v) for v in b), tuple(size))[1]
+        except NoTiles:
+            return -1
+    for b, size, rn, rd in bbls:
+        tie = any(r * rd == rn or r * rd * L.SD == rn * L.SN for r in list(g['res']) + list(g.get('thr', []))) or \
+            rn == g['res'][0] * L.MS * rd
+        touch = b[0] == g['bbox'][2] or b[2] == g['bbox'][0] or b[1] == g['bbox'][3] or b[3] == g['bbox'][1]
+        doc['bbls'].append({'r': b, 'size': size, 'rn': rn, 'rd': rd, 'a': bbl(ga, A, b, size),
+                            'b': -2 if (tie or touch) else bbl(gb, Bm, b, size)})
     return doc, problems
 
 
@@ -175,7 +209,8 @@ def report(ctx, name, g, doc, verdict, kindsig):
                       'transcription (real sizes %s, supports ll/ul %s/%s)' % (name, doc['sizes'], doc['supports_ll'], doc['supports_ul']),
                       {'grid': g})
     for key, coll, label in (('point', 'points', 'tile() for a point'), ('tile', 'tiles', 'tile_bbox / flip'),
-                             ('rect', 'rects', 'get_affected_level_tiles'), ('res', 'ress', 'closest_level')):
+                             ('rect', 'rects', 'get_affected_level_tiles'), ('res', 'ress', 'closest_level'),
+                             ('bbl', 'bbls', 'get_affected_bbox_and_level')):
         i = verdict[key]
         if i:
             ok = False
@@ -189,7 +224,7 @@ def report(ctx, name, g, doc, verdict, kindsig):
 def run(ctx):
     thorough = ctx.tier == 'thorough'
     tlc.sany(SPEC)
-    names = list(L.CATALOGUE) if thorough else ['G2', 'Gpartul', 'Gneg', 'Grect', 'Grectul', 'G15', 'Gnear', 'Gthr', 'Gunal', 'G1', 'Gcust']
+    names = list(L.CATALOGUE) if thorough else ['G2', 'Gpartul', 'Gneg', 'Grect', 'Grectul', 'G15', 'Gnear', 'Gthr', 'Gunal', 'G1', 'Gcust', 'Gsparse']
     n_rect, n_pt = (6000, 3000) if thorough else (700, 500)
     total = 0
     for name in names:
@@ -199,11 +234,13 @@ def run(ctx):
         for p in problems[:1]:
             ctx.violation({'kind': 'lattice', 'grid': name, 'what': 'off-lattice'}, '%s: %s' % (name, p), {'grid': g})
         r, verdict = validate(ctx, name, doc)
-        n = len(doc['points']) + len(doc['tiles']) + len(doc['rects']) + len(doc['ress'])
+        n = len(doc['points']) + len(doc['tiles']) + len(doc['rects']) + len(doc['ress']) + len(doc['bbls'])
         total += n
         for coll in ('points', 'tiles', 'rects', 'ress'):
             for c in doc[coll]:
                 ctx.count((name, coll, json.dumps(c.get('p') or c.get('t') or [c.get('r'), c.get('l')] if coll != 'ress' else [c['rn'], c['rd']])))
+        for c in doc['bbls']:
+            ctx.count((name, 'bbls', json.dumps([c['r'], c['size']])))
         ctx.cov['states'] += max(r.distinct, 1)
         ctx.cov['transitions'] += n
         ctx.cov['traces_validated_against_impl'] += 1
@@ -212,8 +249,9 @@ def run(ctx):
             ctx.notes.append('%s: awkward regime skipped (extent is an exact number of pixels = 1 mod tile size: float floor division boundary)' % name)
         if name == names[0]:
             ctx.sample({'grid': name, 'point case': doc['points'][0], 'rect case': doc['rects'][0], 'res case': doc['ress'][0]})
-        ctx.log('%s: %d cases (%d points, %d tiles, %d rects, %d resolutions) %s in %.1fs' % (
-            name, n, len(doc['points']), len(doc['tiles']), len(doc['rects']), len(doc['ress']), 'ok' if ok else 'FAILED', r.wall))
+        ctx.log('%s: %d cases (%d points, %d tiles, %d rects, %d resolutions, %d sized requests) %s in %.1fs' % (
+            name, n, len(doc['points']), len(doc['tiles']), len(doc['rects']), len(doc['ress']), len(doc['bbls']),
+            'ok' if ok else 'FAILED', r.wall))
 
     # random grids (code -> spec): random origins, tile sizes, resolution lists (multiples of 10 u), stretch 5/4
     from mapproxy.grid import TileGrid
@@ -238,7 +276,7 @@ def run(ctx):
             ctx.violation({'kind': 'lattice', 'grid': 'random', 'what': 'off-lattice'}, 'random grid %s: %s' % (g, p), {'grid': g})
         r, verdict = validate(ctx, 'rand%d' % k, doc)
         ctx.cov['traces_validated_against_impl'] += 1
-        n = len(doc['points']) + len(doc['tiles']) + len(doc['rects']) + len(doc['ress'])
+        n = len(doc['points']) + len(doc['tiles']) + len(doc['rects']) + len(doc['ress']) + len(doc['bbls'])
         total += n
         ctx.cov['transitions'] += n
         ctx.count(('random-grid', json.dumps(g)), n=n)
